@@ -41,7 +41,7 @@ __all__ = ['UdpDriver']
 class UdpDriver(CRTPDriver):
 
     def __init__(self):
-        None
+        self.socket = None
 
     def connect(self, uri, linkQualityCallback, linkErrorCallback):
         if not re.search('^udp://', uri):
@@ -57,7 +57,10 @@ class UdpDriver(CRTPDriver):
         self.socket.sendto('\xFF\x01\x01\x01'.encode(), self.addr)
 
     def receive_packet(self, time=0):
-        data, addr = self.socket.recvfrom(1024)
+        sock = self.socket
+        if sock is None:
+            return None
+        data, addr = sock.recvfrom(1024)
 
         if data:
             data = struct.unpack('B' * (len(data) - 1), data[0:len(data) - 1])
@@ -78,6 +81,10 @@ class UdpDriver(CRTPDriver):
             return None
 
     def send_packet(self, pk):
+        sock = self.socket
+        if sock is None:
+            # Not connected or already closed, nothing is sent
+            return
         raw = (pk.port,) + struct.unpack('B' * len(pk.data), pk.data)
 
         cksum = 0
@@ -89,11 +96,18 @@ class UdpDriver(CRTPDriver):
         data = ''.join(chr(v) for v in (raw + (cksum,)))
 
         # print tuple(data)
-        self.socket.sendto(data.encode(), self.addr)
+        sock.sendto(data.encode(), self.addr)
 
     def close(self):
-        # Remove this from the server clients list
-        self.socket.sendto('\xFF\x01\x02\x02'.encode(), self.addr)
+        sock = self.socket
+        if sock is None:
+            return
+        self.socket = None
+        try:
+            # Remove this from the server clients list
+            sock.sendto('\xFF\x01\x02\x02'.encode(), self.addr)
+        finally:
+            sock.close()
 
     def get_name(self):
         return 'udp'
